@@ -8,6 +8,7 @@
 #include "e2common.h"
 
 static int start_mask = 0xff;
+static int odd_names;   /* --p4 = 1: second alphabet - the bracket pair alone (= group-less), names that are equal under the library's string hash (djb2), an array-style name */
 
 static int bfs_expand(const bfs_hist *h, int op, uint64_t hash[2], uint64_t *refhash)
 {
@@ -47,7 +48,8 @@ static void check_listing(econf_file *kf, const e2_model *m, const char *sig, co
   if (gi != nw && !mc_case_failed) mc_fail(sig, "%s: section '%s' is missing from econf_getGroups; %s", when, want[gi], sig);
   econf_freeArray(groups);
   /* keys per section, in insertion order */
-  const char *secs[9] = { NULL, "", "A", "B", "C", "E", "Z", "AB" };
+  static const char *secs0[9] = { NULL, "", "A", "B", "C", "E", "Z", "AB" }, *secs1[9] = { NULL, "", "Az", "BY", "C", "E", "s[0]", "B" };
+  const char **secs = odd_names ? secs1 : secs0;
   for (int si = 0; si < 8 && !mc_case_failed; si++) {
     const char *cs = e2_canon_sec(secs[si]);
     const char *wk[64]; int nk = 0;
@@ -72,9 +74,10 @@ static void check_listing(econf_file *kf, const e2_model *m, const char *sig, co
 
 static void check_gets(econf_file *kf, e2_model *m, const char *sig, const char *when)
 {
-  const char *secs[10] = { NULL, "", "A", "[A]", "B", "[B]", "C", "Z", "AB", "[AB]" };
-  const char *keys[8] = { "x", "y", "z", "p8", "q", "xy", "X" };
-  for (int si = 0; si < 10; si++) for (int ki = 0; ki < 7 && !mc_case_failed; ki++) {
+  static const char *secs0[11] = { NULL, "", "A", "[A]", "B", "[B]", "C", "Z", "AB", "[AB]", "[]" }, *keys0[8] = { "x", "y", "z", "p8", "q", "xy", "X" };
+  static const char *secs1[11] = { NULL, "", "Az", "[Az]", "BY", "[BY]", "C", "s[0]", "B", "[B]", "[]" }, *keys1[8] = { "xz", "y", "z", "p8", "yY", "x", "XZ" };
+  const char **secs = odd_names ? secs1 : secs0, **keys = odd_names ? keys1 : keys0;
+  for (int si = 0; si < 11; si++) for (int ki = 0; ki < 7 && !mc_case_failed; ki++) {
     e2_ent *e = e2m_find(m, e2_canon_sec(secs[si]), keys[ki]);
     char *v = (char *)(uintptr_t)0x30;
     econf_err rc = econf_getStringValue(kf, secs[si], keys[ki], &v);
@@ -180,6 +183,11 @@ int main(int argc, char **argv)
   int depth = mc_opt.param[0] ? (int)mc_opt.param[0] : 4;
   int hook_depth = mc_opt.param[1] ? (int)mc_opt.param[1] : depth;
   if (mc_opt.param[2]) start_mask = (int)mc_opt.param[2];
+  odd_names = (int)mc_opt.param[4];
+  if (odd_names) {
+    e2_sec[0] = NULL; e2_sec[1] = "[]"; e2_sec[2] = "Az"; e2_sec[3] = "[BY]"; e2_sec[4] = "BY"; e2_sec[5] = "s[0]"; e2_nsec = 6;
+    e2_key[0] = "xz"; e2_key[1] = "yY"; e2_nkey = 2;
+  }
   bfs_nstarts = 8; bfs_nops = e2_nsec * e2_nkey * e2_nval;
   if (mc_opt.case_id) {
     bfs_hist h; bfs_parse_id(mc_opt.case_id, &h);
